@@ -12,12 +12,12 @@ package cache
 //@ protected cache.Cache.entries by this.mu != nil && muheld[base(this.mu)] @C14
 //@ protected cache.Cache.lru by this.mu != nil && muheld[base(this.mu)] @C14
 
-//@ spec (*Cache).evict
+//@ spec (*Cache).evict(c)
 //@   assume
 //@   requires [P3-locked] c != nil && c.mu != nil && muheld[base(c.mu)] @C14
 //@   modifies cache.Cache.cnt, map[uint64]*cache.entry
 
-//@ spec (*Cache).LookupSlot
+//@ spec (*Cache).LookupSlot(c, id)
 //@   props C14 C11 C06
 //@   entryassumes [P3-own-mutex] c != nil && c.mu != nil && !muheld[base(c.mu)] && c.entries != nil && c.lru != nil
 //@   allocates cache.entry
